@@ -403,7 +403,7 @@ def struct_rules(ctx, item):
                         fe = bt_.expr_of_call(cf_['term'])
                         if len(fe[2]) == 3 and fe[2][2][0] == 'closure' and fe[2][2][1] == g.id and not g.switches():
                             src_ = expand(bt_, fe[2][0])
-                            per_elem = bool(find_calls_(src_, 'dfs_hierarchy')) and not any(re.search(r'Iterator::(rev|skip|take|filter|step_by)$', c_[3]) for c_ in calls_in(src_))
+                            per_elem = bool(find_calls_(src_, 'dfs_hierarchy')) and not any(re.search(r'Iterator::(rev|skip|take|filter|step_by|map_while|scan|take_while|skip_while|fuse|cycle)$', c_[3]) for c_ in calls_in(src_))
                 else:
                     from guards import innermost_loop, loop_source
                     from r_panic import cycle_without
@@ -412,7 +412,7 @@ def struct_rules(ctx, item):
                         sty, src_ = loop_source(g, L)
                         src_ = expand(g, src_)
                         per_elem = not cycle_without(g, L[1], L[0], {c['block']}) and bool(find_calls_(src_, 'dfs_hierarchy')) and \
-                            not any(re.search(r'Iterator::(rev|skip|take|filter|step_by)$', c_[3]) for c_ in calls_in(src_))
+                            not any(re.search(r'Iterator::(rev|skip|take|filter|step_by|map_while|scan|take_while|skip_while|fuse|cycle)$', c_[3]) for c_ in calls_in(src_))
                 same_elem = key[0] == 'field' and val[0] == 'field' and strip(key[1]) == strip(val[1]) and key[2] != val[2]
                 detg = 'push(entry(%s).or_default(), %s), once per hierarchy entry: %s' % (show(key)[:30], show(val)[:30], per_elem)
                 okg = per_elem and same_elem
@@ -854,7 +854,7 @@ def type_printer(ctx):
         from guards import loop_source
         sty_, src_ = loop_source(f, L_)
         if src_ is not None and any(isinstance(x, tuple) and x[0] == 'payload' and x[2] == 'Function' and x[3] == 1 for x in walk(expand(f, src_))):
-            okargs = not any(re.search(r'Iterator::(rev|skip|take|filter|step_by|skip_while|take_while|filter_map)$', c_[3]) for c_ in calls_in(expand(f, src_)))
+            okargs = not any(re.search(r'Iterator::(rev|skip|take|filter|step_by|skip_while|take_while|filter_map|map_while|scan|fuse|cycle)$', c_[3]) for c_ in calls_in(expand(f, src_)))
     okf = okf and okret and okargs
     ctx.ob(['C16', 'C04', 'C13'], 'R-TMPL', 'TYPE|function', okf and okcc,
            'a function pointer prints `unsafe extern "<its own calling convention>" fn (<name: type, ...>) [-> ret]`: %s' % tf, where)
@@ -931,7 +931,7 @@ def helpers(ctx):
             cond = fl.opts[0][1] if fl.opts else None
             srcs = fl.reps[0][1] if fl.reps else []
             src_ok = len(srcs) == 1 and bool([c_ for c_ in calls_in(srcs[0]) if c_[1].endswith('::lines')]) and not any(
-                re.search(r'Iterator::(rev|skip|take|filter|step_by)$', c_[3]) for c_ in calls_in(srcs[0]))
+                re.search(r'Iterator::(rev|skip|take|filter|step_by|map_while|scan|take_while|skip_while|fuse|cycle)$', c_[3]) for c_ in calls_in(srcs[0]))
             okd = cond is not None and cond[0] == 'is_some' and strip(cond[1])[0] == 'arg' and src_ok and fl.alts[0][1][0].endswith('=True') and \
                 show(strip([h for h in fl.holes if h[0] == int(m2.group(1))][0][1])) == show(strip([h for h in fl.holes if h[0] == int(m2.group(2))][0][1]))
         ctx.ob(['C17'], 'R-TMPL', 'docs|line-by-line', okd, 'docs are emitted as one #[doc = <line>] per line of the text, in order (#![doc] when is_module_doc), nothing when there is no doc: %s' % s, loc(f.span))
